@@ -4,6 +4,7 @@
 From Coq Require Import List NArith Arith Bool.
 From V Require Proofs.ExprsTie3.  (* whole-word regimes, fill_symmetric, text widths: regenerated from the Rust source, equal the model's *)
 From V Require Proofs.ExprsTie.   (* the kernels' word-level expressions, regenerated from the Rust source, equal the model's *)
+From V Require Import Checkers.Check Proofs.CheckSound.   (* the extracted checkers and their soundness proofs, pinned at the end of this file *)
 From V Require Import Base.Res Gen.Tables Model.Kernels Model.Api Spec.Bfun Proofs.Constructors.
 Import ListNotations.
 Open Scope N_scope.
@@ -126,3 +127,80 @@ Print Assumptions C11_set_bit.
 Print Assumptions C11_unset_bit.
 Print Assumptions C11_set_value.
 Print Assumptions C11_bit_guard.
+
+
+(* ---- soundness of the extracted checkers that decide this property's statement on the implementation's results *)
+Theorem C11_checker_table_iff : forall n t f,
+  chk_table n t f = true <-> wf n t /\ forall m, m < 2 ^ N.of_nat n -> val t m = f m.
+Proof. exact CheckSound.chk_table_iff. Qed.
+
+Theorem C11_checker_table_unique : forall n t t' f,
+  chk_table n t f = true -> chk_table n t' f = true -> t' = t.
+Proof. exact CheckSound.chk_table_unique. Qed.
+
+Theorem C11_checker_zero_model : forall n r,
+  D_zero n = Ok r -> nv r = n /\ chk_table n (tbl r) spec_zero = true.
+Proof. exact CheckSound.chk_zero_model. Qed.
+
+Theorem C11_checker_one_model : forall n r,
+  D_one n = Ok r -> nv r = n /\ chk_table n (tbl r) spec_one = true.
+Proof. exact CheckSound.chk_one_model. Qed.
+
+Theorem C11_checker_nth_var_model : forall n v r,
+  v < N.of_nat n -> D_nth_var n v = Ok r ->
+  nv r = n /\ chk_table n (tbl r) (spec_nth_var v) = true.
+Proof. exact CheckSound.chk_nth_var_model. Qed.
+
+Theorem C11_checker_symmetric_model : forall n cv r,
+  (n < 64)%nat -> cv < 2 ^ 64 -> D_symmetric n cv = Ok r ->
+  nv r = n /\ chk_table n (tbl r) (spec_symmetric cv) = true.
+Proof. exact CheckSound.chk_symmetric_model. Qed.
+
+Theorem C11_checker_equals_model : forall n k r,
+  (n < 64)%nat -> D_equals n k = Ok r ->
+  nv r = n /\ chk_table n (tbl r) (spec_equals k) = true.
+Proof. exact CheckSound.chk_equals_model. Qed.
+
+Theorem C11_checker_threshold_model : forall n k r,
+  (n < 64)%nat -> D_threshold n k = Ok r ->
+  nv r = n /\ chk_table n (tbl r) (spec_threshold k) = true.
+Proof. exact CheckSound.chk_threshold_model. Qed.
+
+Theorem C11_checker_parity_model : forall n r,
+  (n < 64)%nat -> D_parity n = Ok r ->
+  nv r = n /\ chk_table n (tbl r) spec_parity = true.
+Proof. exact CheckSound.chk_parity_model. Qed.
+
+Theorem C11_checker_majority_model : forall n r,
+  (n < 64)%nat -> D_majority n = Ok r ->
+  nv r = n /\ chk_table n (tbl r) (spec_majority n) = true.
+Proof. exact CheckSound.chk_majority_model. Qed.
+
+Theorem C11_checker_set_model : forall l m0 v r,
+  wf (nv l) (tbl l) -> m0 < 2 ^ N.of_nat (nv l) -> D_set_value l m0 v = Ok r ->
+  nv r = nv l /\ chk_table (nv l) (tbl r) (spec_set (tbl l) m0 v) = true.
+Proof. exact CheckSound.chk_set_model. Qed.
+
+Theorem C11_checker_set_bit_model : forall l m0 r,
+  wf (nv l) (tbl l) -> m0 < 2 ^ N.of_nat (nv l) -> D_set_bit l m0 = Ok r ->
+  nv r = nv l /\ chk_table (nv l) (tbl r) (spec_set (tbl l) m0 true) = true.
+Proof. exact CheckSound.chk_set_bit_model. Qed.
+
+Theorem C11_checker_unset_bit_model : forall l m0 r,
+  wf (nv l) (tbl l) -> m0 < 2 ^ N.of_nat (nv l) -> D_unset_bit l m0 = Ok r ->
+  nv r = nv l /\ chk_table (nv l) (tbl r) (spec_set (tbl l) m0 false) = true.
+Proof. exact CheckSound.chk_unset_bit_model. Qed.
+
+Print Assumptions C11_checker_table_iff.
+Print Assumptions C11_checker_table_unique.
+Print Assumptions C11_checker_zero_model.
+Print Assumptions C11_checker_one_model.
+Print Assumptions C11_checker_nth_var_model.
+Print Assumptions C11_checker_symmetric_model.
+Print Assumptions C11_checker_equals_model.
+Print Assumptions C11_checker_threshold_model.
+Print Assumptions C11_checker_parity_model.
+Print Assumptions C11_checker_majority_model.
+Print Assumptions C11_checker_set_model.
+Print Assumptions C11_checker_set_bit_model.
+Print Assumptions C11_checker_unset_bit_model.
